@@ -369,6 +369,7 @@ package protocol
 // of its LAST inner message, the inner messages carry relative offsets 0..n-1; every inner offset is rewritten to
 // wrapperOffset - (n-1 - relative). Same rule as extractOffset on the Conn/Reader path (base = wrapper - last relative).
 //@ func (*RecordSet).readFromVersion1
+//@   requires 0 <= d.remain && d.remain <= 0x7fffffff
 //@   option noframe
 //@   modifies heap
 //@   loop 2 invariant same(r.records, loopentry(r.records)) && -1 <= rangeindex && rangeindex < len(r.records)
